@@ -63,10 +63,17 @@ func NewDB(conn *sql.DB, schema *Schema) *DB {
 		Many: func(ctx context.Context, items []interface{}) ([]interface{}, error) {
 			table := items[0].(*BaseSelectQuery).Table
 
-			// First, build the SQL query.
+			// First, build the SQL query. Filters are converted to the driver values
+			// their columns' Valuers produce, as the unbatched query does when it
+			// writes its WHERE clause: the zero value of an implicitnull column is
+			// NULL, tagged columns are serialized.
 			filters := make([]Filter, 0, len(items))
 			for _, item := range items {
-				filters = append(filters, item.(*BaseSelectQuery).Filter)
+				f, err := table.driverValueMap(item.(*BaseSelectQuery).Filter)
+				if err != nil {
+					return nil, err
+				}
+				filters = append(filters, f)
 			}
 			clause, args := makeBatchQuery(filters)
 			query, err := db.Schema.makeSelect(table.Type, nil, &SelectOptions{
@@ -95,17 +102,13 @@ func NewDB(conn *sql.DB, schema *Schema) *DB {
 
 			// Finally, match the returned rows against the queries.
 			matcher := newMatcher()
-			for i, item := range items {
-				query := item.(*BaseSelectQuery)
-				// Convert rows and filters to the driver values their columns' Valuers
-				// produce, to copy what the row tester does when matching against the
-				// binlog. This way, a filter specifying age=48 will match a value
-				// *age=48, and int(48) will match an int64 column holding 48.
-				f, err := table.driverValueMap(query.Filter)
-				if err != nil {
-					return nil, err
-				}
-				matcher.add(i, f)
+			for i := range items {
+				// Rows and filters are both matched as the driver values their
+				// columns' Valuers produce, to copy what the row tester does when
+				// matching against the binlog. This way, a filter specifying age=48
+				// will match a value *age=48, and int(48) will match an int64 column
+				// holding 48.
+				matcher.add(i, filters[i])
 			}
 			results := make([][]interface{}, len(items))
 			for _, row := range rows {
